@@ -794,6 +794,15 @@ def _v_nm_greedy_expansion(tree):
 from .c18 import _t_alns_hoisted_user_values  # noqa: E402
 
 
+def _v_stateful_cooling_schedule(tree):
+    g = M.find_func(tree, "exponential_cooling")
+    inner = [n for n in g.body if isinstance(n, ast.FunctionDef)]
+    if not inner:
+        raise M.Skip("schedule closure not found")
+    inner[0].body = M.stmts("nonlocal temp\ntemp = initial_temp * rate if temp is None else temp * rate\nreturn temp")
+    g.body.insert(g.body.index(inner[0]), M.stmts("temp = None")[0])
+
+
 def _v_alns_weights_aliased(tree):
     g = M.find_func(tree, "alns")
     M.replace_expr(g, lambda e: M.src_is(e, "list(destroy_weights) if destroy_weights else [1.0] * n_destroy"), M.expr("destroy_weights or [1.0] * n_destroy"))
@@ -811,6 +820,7 @@ def _v_anneal_seed_truthiness(tree):
 
 VARIANTS = [
     M.Variant("alns adapts the caller's weight list in place (seed C19-I)", LN, _v_alns_weights_aliased, "C19-O5"),
+    M.Variant("exponential_cooling returns a schedule that remembers its temperature between runs (seed C19-M)", AN, _v_stateful_cooling_schedule, "C19-G3"),
     M.Variant("twin: alns copies its weights after the `or` default", LN, _t_alns_weights_copied_after_or, None),
     M.Variant("anneal treats seed=0 as unseeded (seed C19-J)", AN, _v_anneal_seed_truthiness, "C19-O5"),
     M.Variant("nelder_mead keeps the expansion whenever it beats the best vertex (seed C19-A)", NM, _v_nm_greedy_expansion, "C19-O3"),
